@@ -123,20 +123,33 @@ def r1_who_may_call(ctx) -> None:
 def r2_item_gates(ctx) -> None:
     r, prog = ctx.r, ctx.prog
     r.rule("C13.R2", "every call of apply_detection_item is guarded by `processing_item is None or processing_item.match_detection_item(item)`; mapped field names are used only under match_field_name / match_field_in_value")
-    want = "self.processing_item is None or self.processing_item.match_detection_item(detection_item)"
+    from .standins import apply_detection_outcomes, DIT_BASE
     n = 0
-    for q, f in sorted(prog.funcs.items()):
-        if f.name != "apply_detection" or not f.module.name.startswith("sigma.processing"):
+    seen = set()
+    for cq in sorted(prog.subclasses(DIT_BASE)):
+        m = prog.lookup_method(cq, "apply_detection")
+        if m is None:
             continue
-        for c in (x for x in walk_no_nested(f.node) if isinstance(x, ast.Call) and call_name(x) == "self.apply_detection_item"):
-            n += 1
-            loc = f"{f.module.relpath}:{c.lineno}"
-            gs = guards_at(prog, f, c)
-            txt = [(unparse(t), p) for t, p in gs if not isinstance(t, (ast.For, ast.match_case))]
-            if (want, True) in txt:
-                r.ok("C13.R2", q, "apply_detection_item(...) under the detection-item gate", loc)
-            else:
-                r.violation("C13.R2", q, short(c, 80), f"detection item transformed without its detection-item/field-name conditions having matched (facts: {txt})", loc)
+        key = (m.qual, tuple(q for q in prog.mro(cq) if (ci := prog.classes.get(q)) is not None and "apply_detection" in ci.methods))
+        if key in seen:
+            continue
+        seen.add(key)
+        m, outs = apply_detection_outcomes(ctx, cq)
+        n += 1
+        bad = None
+        for o in outs:
+            if o.raised is not None:
+                bad = f"raises {o.raised} ({o.mode}, {o.mods})"
+                break
+            want_asked = ["A", "C"] if o.with_pi else ["A", "B", "C"]
+            if sorted(o.asked) != want_asked:
+                bad = (f"with a processing item whose detection item condition matches A and C only, apply_detection_item is asked about {o.asked}" if o.with_pi
+                       else f"without a processing item, apply_detection_item is asked about {o.asked} of the items A, B and the nested C")
+                break
+        if bad:
+            r.violation("C13.R2", m.qual, "apply_detection_item(...) behind the detection-item gate", f"detection item transformed without its detection-item/field-name conditions having matched, or a matching one skipped: {bad}", m.loc)
+        else:
+            r.ok("C13.R2", m.qual, f"interpreted on [A, B, [C]] for {cq.rsplit('.', 1)[-1]}: apply_detection_item is called exactly for the items the processing item's conditions match (all items without a processing item), nested detections included ({len(outs)} scenarios)", m.loc)
     f = prog.func(TB + ".FieldMappingTransformationBase._apply_field_name")
     rets = [x for x in walk_no_nested(f.node) if isinstance(x, ast.Return)]
     for x in rets:
@@ -596,15 +609,33 @@ def r6_tracking(ctx) -> None:
                     r.violation("C13.R6", q, short(c, 100),
                                 "dataclasses.replace re-runs __init__/__post_init__: the init=False field applied_processing_items starts empty, so items applied to the original "
                                 "detection item are forgotten and a later item conditioned on processing_item_applied no longer sees them", loc)
-    for fn in ("DetectionItemTransformation", "FieldMappingTransformationBase", "ValueTransformation"):
-        f = prog.func(f"{TB}.{fn}.apply_detection")
-        stores = [x for x in walk_no_nested(f.node) if isinstance(x, ast.Assign) and unparse(x.targets[0]) == "detection.detection_items[i]"]
-        marks = [c for c in walk_no_nested(f.node) if isinstance(c, ast.Call) and call_name(c) == "self.processing_item_applied" and unparse(c.args[0]) == "r"]
-        if len(stores) == 1 and len(marks) == 1 and marks[0].lineno > stores[0].lineno - 3:
-            n += 1
-            r.ok("C13.R6", f.qual, "replacement stored and marked with processing_item_applied(r)", f"{f.module.relpath}:{stores[0].lineno}")
+    from .standins import apply_detection_outcomes, DIT_BASE
+    seen = set()
+    for cq in sorted(prog.subclasses(DIT_BASE)):
+        m = prog.lookup_method(cq, "apply_detection")
+        if m is None:
+            continue
+        key = (m.qual, tuple(q for q in prog.mro(cq) if (ci := prog.classes.get(q)) is not None and "apply_detection" in ci.methods))
+        if key in seen:
+            continue
+        seen.add(key)
+        m, outs = apply_detection_outcomes(ctx, cq)
+        bad = None
+        for o in outs:
+            for nm, i in o.items.items():
+                if i.result is not None and not i.stored and not (i.now is None or type(i.now).__name__ == "DeleteSigmaDetectionItem"):
+                    bad = f"the replacement apply_detection_item returned for {nm} is not stored in the detection ({o.mode})"
+                elif i.result is not None and not i.marked:
+                    bad = f"the replacement of {nm} is not marked with processing_item_applied ({o.mode}, marked: {o.marked})"
+                elif i.result is None and i.now is not None and getattr(i.now, "name", None) in o.marked and o.mode == "none":
+                    bad = f"{nm} is marked as processed although apply_detection_item replaced nothing"
+            if bad:
+                break
+        if bad:
+            r.violation("C13.R6", m.qual, "detection.detection_items[i] = r; self.processing_item_applied(r)", f"a replacement is not marked as applied by this processing item: {bad}", m.loc)
         else:
-            r.violation("C13.R6", f.qual, "detection.detection_items[i] = r; self.processing_item_applied(r)", "a replacement is not marked as applied by this processing item", f.loc)
+            n += 1
+            r.ok("C13.R6", m.qual, f"interpreted for {cq.rsplit('.', 1)[-1]}: each replacement is stored in place of the item and marked with processing_item_applied; nothing is marked when nothing was replaced", m.loc)
     r.floor("C13.R6", 4)
 
 
@@ -717,6 +748,25 @@ def r7_walkers(ctx, rid: str = "C13.R7", scope=("sigma.processing", "sigma.valid
                     continue
                 loc = f"{f.module.relpath}:{node.lineno}"
                 rec = [c for c in ast.walk(node) if isinstance(c, ast.Call) and call_name(c) in (f"self.{f.name}", f.name, f"cls.{f.name}")]
+                if not rec and f.cls is not None:
+                    # mutual recursion: the loop calls a method of the same class that (transitively) calls this function again
+                    def reaches(mname: str, depth: int, seen: set) -> bool:
+                        if mname in seen or depth > 3:
+                            return False
+                        seen.add(mname)
+                        impls = [m_ for cq_ in prog.subclasses(f.cls.qual) + list(prog.mro(f.cls.qual)) if (ci_ := prog.classes.get(cq_)) is not None and (m_ := ci_.methods.get(mname)) is not None]
+                        if not impls:
+                            return False
+                        for m_ in impls:  # every implementation the call can reach has to come back
+                            names = {call_name(c_) for c_ in ast.walk(m_.node) if isinstance(c_, ast.Call)}
+                            if f"self.{f.name}" in names or f"cls.{f.name}" in names:
+                                continue
+                            if f"super().{mname}" in names:
+                                continue  # an override that extends the base implementation, which is examined as well
+                            if not any(nm.startswith("self.") and reaches(nm[5:], depth + 1, set(seen)) for nm in names if nm.count(".") == 1):
+                                return False
+                        return True
+                    rec = [c for c in ast.walk(node) if isinstance(c, ast.Call) and call_name(c).startswith("self.") and call_name(c).count(".") == 1 and reaches(call_name(c)[5:], 0, set())]
                 filt = any("isinstance" in unparse(i) and "SigmaDetectionItem" in unparse(i) for g in getattr(node, "generators", []) for i in g.ifs)
                 if rec and not filt:
                     r.ok(rid, q, f"walk over {t} recurses through {f.name}(...)", loc)
